@@ -149,7 +149,7 @@ func c18Canon(t *Ty) string {
 		case aTy:
 			sb.WriteString(c18Canon(a.T))
 		case aNamed:
-			sb.WriteString(a.Name + " " + c18Canon(a.T))
+			sb.WriteString(c18ShowName(a.Name) + " " + c18Canon(a.T))
 		case aNum:
 			sb.WriteString(c18Num(a.Neg, a.U))
 		case aStr:
@@ -233,6 +233,38 @@ var c18Unlisted = []string{"IntervalDay", "IntervalSecond", "IntervalMonth", "Li
 	"TINYINT", "REAL", "BLOB", "INET4", "MyType"}
 
 var c18ElemNames = []string{"a", "b", "c", "x", "y", "id", "name", "value", "key", "k1", "_f", "col_2", "ts", "n", "s", "status", "type", "index", "A1"}
+// element names that are not plain ASCII words: written in backticks, shown in backticks (the Lean model and
+// spec are only consulted for plain names; these are compared with the Go oracle alone)
+var c18SpecialElemNames = []string{"имя", "a$b", "a b", "naïve", "x-y", "中", "a.b", "pct%"}
+
+func c18NeedsQuote(name string) bool {
+	for _, c := range name {
+		if !((c >= 'a' && c <= 'z') || (c >= 'A' && c <= 'Z') || (c >= '0' && c <= '9') || c == '_') {
+			return true
+		}
+	}
+	return false
+}
+
+func c18ShowName(name string) string {
+	if c18NeedsQuote(name) {
+		return "`" + name + "`"
+	}
+	return name
+}
+
+func (t *Ty) hasSpecialName() bool {
+	for _, a := range t.Args {
+		if a.Kind == aNamed && c18NeedsQuote(a.Name) {
+			return true
+		}
+		if a.T != nil && a.T.hasSpecialName() {
+			return true
+		}
+	}
+	return false
+}
+
 var c18TypeLikeElemNames = []string{"date", "time", "string", "uuid", "point", "json", "bool", "Date", "int", "map", "tuple"}
 
 var c18TimeZones = []string{"UTC", "Europe/Moscow", "America/New_York", "Asia/Istanbul", "Etc/GMT+3", "Europe/Amsterdam", "", "Asia/Kolkata", "UCT", "W-SU",
@@ -370,6 +402,9 @@ func (g *tyGen) buildWith(c tyCtor, depth int, pos tyPos, forceChild tyCtor, chi
 			// an element name that is itself a type name is recognised as a name only when a listed IDENT follows
 			if r.Chance(1, 8) && c18IsListed(et.Words[0]) && token.Lookup(strings.ToUpper(et.Words[0])) == token.IDENT {
 				name = pick(r, c18TypeLikeElemNames)
+			}
+			if r.Chance(1, 12) {
+				name = pick(r, c18SpecialElemNames) // needs backticks in the source and in the canonical text
 			}
 			t.Args = append(t.Args, TyArg{Kind: aNamed, Name: name, T: et})
 		}
@@ -563,7 +598,11 @@ func (t *Ty) rtoks(r *Rng, out *[]rtok) {
 		case aTy:
 			a.T.rtoks(r, out)
 		case aNamed:
-			*out = append(*out, c18Word(a.Name))
+			if c18NeedsQuote(a.Name) {
+				*out = append(*out, rtok{text: "`" + a.Name + "`", kind: token.IDENT, val: a.Name})
+			} else {
+				*out = append(*out, c18Word(a.Name))
+			}
 			a.T.rtoks(r, out)
 		case aNum:
 			num(a)
@@ -887,7 +926,7 @@ func c18Case(w *W, r *Rng, idx int, t *Ty, hz string, knownText string, desc str
 	// ---- correspondence of the Lean specification (Ty, tokens, canonTy, WfTy, GrammarTy) with this file's algebra:
 	// same canonical text, same tokens as the real lexer produced, every generated type is in the grammar, and it is
 	// well-formed (the domain of the theorems) exactly when it is not one of the known-finding shapes
-	if useModel && first != nil {
+	if useModel && first != nil && !t.hasSpecialName() {
 		var sb strings.Builder
 		c18Encode(t, &sb)
 		wf := "1"
@@ -905,7 +944,7 @@ func c18Case(w *W, r *Rng, idx int, t *Ty, hz string, knownText string, desc str
 		}
 	}
 	// ---- correspondence with the Lean model on the same tokens
-	if useModel && first != nil {
+	if useModel && first != nil && !t.hasSpecialName() {
 		ans := w.Model().Ask("c18 " + c18TokLine(first))
 		exp := c18ModelForm(shownFn) + " " + c18ModelForm(shownOp)
 		if ans != exp {
